@@ -26,6 +26,13 @@ mutant effect: 0.25).
 Semantics pinned for the model: in a mixed index such as v[0:2, 1] the integer axis is kept with
 length 1; a partial index is padded with full slices; get_data returns the addressed cells in
 row-major order of the index product (a bare cell when every axis addresses one position).
+
+Two further dimensions run outside the BFS, each with its own complete enumeration (see the sections "identity" and
+"content of field names"): ONE array object sitting in several cells of a Vector (index lists that name a position
+twice, one object assigned to several cells), judged by a model that keeps a group label per cell and accepts every
+reading the property leaves open for a repeated array while staying exact for all other cells; and field lists made
+of look-alike names (case, blanks, Unicode forms, numeric spellings, prefixes, metacharacters), where every
+name-addressed operation must act on exactly the named column and look-alikes that are absent must not resolve.
 """
 from __future__ import annotations
 
@@ -70,7 +77,18 @@ CLAIM = (
     "as str / list / tuple / set / dict keys. Global-mode dimension: from six initial states (float, int64, uint8 and bool cells) "
     "and their depth-1 successors every event and every refused operation is executed under warnings-as-errors and under "
     "np.errstate(all='raise'): it must give the default-mode result, or — if the mode turns it into an exception — satisfy the "
-    "refused-operation oracle plus the structural invariants (names, units and cell columns agree; flatten consistent). Model checking is the right level because the "
+    "refused-operation oracle plus the structural invariants (names, units and cell columns agree; flatten consistent). Identity dimension: "
+    "from four initial states (1-3 fixed dimensions) ONE array object is brought into several cells — by index lists that name a position twice "
+    "(v[[1, 1, 2, 0]], [0, 0], [2, 0, 2], lists and arrays, on every axis; unsorted lists as controls), by assigning one object to two / three cells, "
+    "v[i] = v[j], slice / list / set_data assignment of a list holding one object twice, from_data([a, b, a]), equal content in distinct objects, "
+    "v[0:n] = v[[..repeated..]] — and every sequence of up to 2 (thorough: 3) of flatten round trip, set_flattened, v[f] = values, += -= *= /=, add_fields, "
+    "remove_fields, copy, whole-cell replacement follows: cells whose array sits in one cell are exact, flatten is the concatenation over all cells "
+    "counting a repeated array once per cell, the source of a slice and the source of a copy stay intact. Field-name dimension: field lists drawn from "
+    "13 families of look-alike names (differing only in case / casefold, surrounding blanks, Unicode normalisation form, numeric spelling, prefixes of "
+    "one another, blanks / dots / non-ASCII letters, glob / regex metacharacters, attribute names of the class) in every order, built with from_shape and from_data: every "
+    "name-addressed operation (get, flatten, field view index, v[f] = values, set_flattened, += -= *= /=, remove_fields as str / list / all-but-one, "
+    "add_fields of every absent look-alike, copy) for every name, depth 1-2, acts on exactly that name's column, and get / set / arithmetic with an "
+    "absent look-alike of an existing name raise and change nothing. Model checking is the right level because the "
     "property quantifies over all operation histories of a small state machine."
 )
 NOTE = (
@@ -81,7 +99,9 @@ NOTE = (
     "operations are judged by a footprint oracle (partial application inside the addressed cells / column is counted in the "
     "evidence, not flagged); propagation of in-place field operations between a kept slice and its parent is not judged "
     "(only whole-cell replacements must be local); singleton lists in assignments and removing every field are outside the alphabet; whether "
-    "copy() carries metadata over is not pinned (empty or equal-by-value are both accepted, sharing is not). Seams: only the "
+    "copy() carries metadata over is not pinned (empty or equal-by-value are both accepted, sharing is not); when one array object sits in k cells of a Vector, "
+    "whether an in-place field operation acts once or k times on it and which of k different requested values it keeps is not pinned (every reading accepted, "
+    "counted); empty / blank-only field names are looked up but never created. Seams: only the "
     "public API; cells are read through the public `data` property on the hot path (fallback v[int index], which is itself "
     "compared with the model for every cell in every expanded state); live states are cloned with pickle, cross-checked "
     "against a replay from scratch by the self-test."
@@ -97,7 +117,10 @@ RULE = (
     "the battery of refused operations on one live object, then observers and one legal event from the observed state; a "
     "kept slice is only taken when another event can follow and only whole-cell replacements are enabled while it is alive. thorough adds all "
     "width sequences and global-mode executions are enumerated completely as stated in bounds; thorough adds every keep-3 removal for 33 fields and all "
-    "length-8 histories that deviate from a varied default history in <= 2 positions (and from a repeated += in <= 2 / <= 1). A transition is non-trivial when it "
+    "length-8 histories that deviate from a varied default history in <= 2 positions (and from a repeated += in <= 2 / <= 1). Identity dimension: every "
+    "(initial state, source of a repeated array object) pair x every sequence of enabled operations up to the stated length, each executed from scratch on one live "
+    "object; field-name dimension: every ordered selection of >= 2 names of each family (plus a neutral name in between) x construction x every operation for every "
+    "name (depth 2 after each structural first operation). A transition is non-trivial when it "
     "reaches a canonical state not seen before; distinct outcomes = distinct canonical states over all shards."
 )
 
@@ -2310,6 +2333,839 @@ def width_shard(item, seed=0, tier="quick"):
     return t
 
 
+# ----------------------------------------------------------------------------- identity: one array object in several cells
+# A Vector stores references to the arrays it is given, and an index list may name a position twice, so ONE ndarray
+# object can sit in several cells (v[[1, 1, 2, 0]]; v[0] = a; v[1] = a; v[0:2] = [a, a]; v[0] = v[1]). The property's
+# sentences still apply to such a Vector: a field's flattened view is the concatenation of that column over ALL cells
+# (once per cell, in row-major order), writing it back restores the data, cells keep one column per field. What the
+# property does NOT say is whether an in-place field operation acts once or once per occurrence on an array that sits
+# in k cells (on /repo HEAD: once per occurrence), nor which of k different requested values such a cell keeps (HEAD:
+# the last): the oracle accepts every reading (op applied 1..k times; the values requested for any occurrence) and then
+# follows the observed state; cells whose array sits in ONE cell are judged exactly — in particular every cell that
+# comes after a repeated one must receive exactly its own stretch of a flattened write.
+ID_INITS = [((3,), 2, (2, 1, 3)), ((4,), 1, (1, 0, 2, 3)), ((2, 2), 2, (2, 1, None, 3)), ((2, 1, 2), 3, (1, 2, 3, 1))]
+VID_SH, VID_ISET = 38, 42  # arrays stored in several cells (+k), whole-cell replacements (+ first/last)
+ID_DEPTH = {"quick": 2, "thorough": 3}
+
+
+class AModel:
+    """Reference model of ONE Vector whose cells may hold the same array object: per cell the value (an array that is
+    never mutated, or None) and a group label; cells with one label were handed the same object by the history."""
+
+    __slots__ = ("shape", "fields", "units", "cells", "val", "grp", "nxt")
+
+    def __init__(self, shape, fields, units):
+        self.shape = tuple(shape)
+        self.fields = list(fields)
+        self.units = list(units)
+        self.cells = list(itertools.product(*[range(n) for n in self.shape]))
+        self.val = {c: None for c in self.cells}
+        self.grp = {c: i for i, c in enumerate(self.cells)}
+        self.nxt = len(self.cells)
+
+    def clone(self):
+        m = AModel.__new__(AModel)
+        m.shape, m.fields, m.units, m.cells = self.shape, list(self.fields), list(self.units), self.cells
+        m.val, m.grp, m.nxt = dict(self.val), dict(self.grp), self.nxt
+        return m
+
+    def fresh(self):
+        self.nxt += 1
+        return self.nxt - 1
+
+    def put(self, c, arr, grp=None):
+        self.val[c] = arr
+        self.grp[c] = self.fresh() if grp is None else grp
+
+    def members(self, c):
+        """The populated cells that were given the same object as c (c itself first)."""
+        g = self.grp[c]
+        return [c] + [d for d in self.cells if d != c and self.grp[d] == g and self.val[d] is not None]
+
+    def populated(self):
+        return [(c, self.val[c]) for c in self.cells if self.val[c] is not None]
+
+    def total_rows(self):
+        return sum(a.shape[0] for _, a in self.populated())
+
+    def bytes(self):
+        return view_bytes(self.shape, self.fields, self.units, [self.val[c] for c in self.cells], {})
+
+
+class IState:
+    """x: the Vector the operations act on, m its model; parent / pm / pmap: the Vector x was taken from by an index
+    list, its model and {cell of x: cell of parent}; orig / om: the Vector x was copied from (must never change)."""
+
+    __slots__ = ("x", "m", "parent", "pm", "pmap", "orig", "om", "text", "take")
+
+
+def ident_build(ii, seed):
+    shape, nf, rows = ID_INITS[ii]
+    T, _ = tables(seed)
+    fields, units = (["field_0"], ["none"]) if nf == 1 else (FIELDS[:nf], UNITS[:nf])
+    v = V().from_shape(shape, num_fields=1) if nf == 1 else V().from_shape(shape=shape, fields=list(fields), units=list(units))
+    m = AModel(shape, fields, units)
+    for k, (c, n) in enumerate(zip(m.cells, rows)):
+        if n is not None:
+            v[cell_idx(c)] = val(T, VID_INIT_V + k, n, nf)
+            m.put(c, val(T, VID_INIT_V + k, n, nf))
+    return v, m
+
+
+def take_lists(n, tier):
+    """Index lists for an axis of size n: a position named twice next to each other at the start / at the end, apart,
+    three times, two positions twice each, the documented [1, 1, 2, 0] pattern, and an unsorted list without a repeat;
+    thorough adds every list of length 2..3 that names a position twice."""
+    L = n - 1
+    if n == 1:
+        base = [[0, 0], [0, 0, 0]]
+    else:
+        two = min(2, L)
+        base = [[0, 0], [L, L, 0], [0, L, L], [L, 0, L], [1, 1, two, 0], [0, 0, 0, L], [0, 0, L, L], [two, 0, two], [L, 0]]
+        if tier == "thorough":
+            base += [list(p) for k in (2, 3) for p in itertools.product(range(n), repeat=k) if len(set(p)) < k]
+    out = []
+    for b in base:
+        if b not in out:
+            out.append(b)
+    return out
+
+
+def ident_sources(ii, tier):
+    """How one array object comes to sit in several cells (plus controls with equal CONTENT in distinct objects)."""
+    shape, nf, rows = ID_INITS[ii]
+    nd = len(shape)
+    ncell = len(rows)
+    pop = [k for k, n in enumerate(rows) if n is not None]
+    out = []
+    for a in range(nd):
+        for j, lst in enumerate(take_lists(shape[a], tier)):
+            for kind in (("list", "array") if tier == "thorough" else (("list", "array")[(j + a) % 2],)):
+                out.append(("take", a, list(lst), kind))
+    for j, (p, q) in enumerate(itertools.combinations(range(ncell), 2)):
+        out.append(("assign2", p, q, ("setitem", "set_data")[j % 2]))
+    out.append(("assign3",))
+    for p in range(ncell):
+        for q in pop:
+            if p != q:
+                out.append(("self_cell", p, q))
+    out += [("list_twice", k) for k in ("slice", "fancy", "all", "set_data_slice")]
+    out += [("equal_content", 0, ncell - 1), ("equal_content", 0, 1)]
+    out.append(("vec_from_dup",))
+    if nd == 1:
+        out.append(("from_data_twice",))
+    return out
+
+
+def ident_source(ii, src, seed):
+    """Fresh objects brought into the source state. Returns an IState; St.text says how in words."""
+    shape, nf, rows = ID_INITS[ii]
+    T, _ = tables(seed)
+    v, m = ident_build(ii, seed)
+    nd = len(shape)
+    cells = m.cells
+    rest0 = (0,) * (nd - 1)
+    ci = cell_idx
+    St = IState()
+    St.parent, St.pm, St.pmap, St.orig, St.om, St.take = None, None, {}, None, None, None
+    St.x, St.m = v, m
+    k = src[0]
+    sh = lambda j=0, n=2: val(T, VID_SH + j, n, nf)
+    if k == "take":
+        a, lst, kind = src[1], list(src[2]), src[3]
+        entry = list(lst) if kind == "list" else np.array(lst)
+        if a == 0 and (nd == 1 or len(lst) % 2 == 1):
+            key = entry  # trailing axes taken whole implicitly
+        else:
+            key = tuple(entry if d == a else slice(None) for d in range(nd))
+        s = v[key]
+        St.take = (entry, list(lst), [entry if d == a else slice(None) for d in range(nd)])
+        new_shape = tuple(len(lst) if d == a else shape[d] for d in range(nd))
+        sm = AModel(new_shape, m.fields, m.units)
+        sm.nxt = m.nxt
+        for out in sm.cells:
+            p = tuple(lst[out[d]] if d == a else out[d] for d in range(nd))
+            sm.val[out], sm.grp[out] = m.val[p], m.grp[p]
+            St.pmap[out] = p
+        St.x, St.m, St.parent, St.pm = s, sm, v, m
+        St.text = f"s = v[{key!r}] (operations act on s)"
+    elif k == "assign2":
+        p, q, api = cells[src[1]], cells[src[2]], src[3]
+        a = sh()
+        if api == "setitem":
+            v[ci(p)] = a
+            v[ci(q)] = a
+        else:
+            v.set_data(a, *p)
+            v.set_data(a, *q)
+        g = m.fresh()
+        m.put(p, sh(), g)
+        m.put(q, sh(), g)
+        St.text = f"a = array; v[{ci(p)!r}] = a; v[{ci(q)!r}] = a ({api})"
+    elif k == "assign3":
+        a = sh()
+        g = m.fresh()
+        for c in (cells[0], cells[1], cells[-1]):
+            v[ci(c)] = a
+            m.put(c, sh(), g)
+        St.text = f"a = array; v[{ci(cells[0])!r}] = v[{ci(cells[1])!r}] = v[{ci(cells[-1])!r}] = a"
+    elif k == "self_cell":
+        p, q = cells[src[1]], cells[src[2]]
+        v[ci(p)] = v[ci(q)]
+        m.val[p], m.grp[p] = m.val[q], m.grp[q]
+        St.text = f"v[{ci(p)!r}] = v[{ci(q)!r}]"
+    elif k == "list_twice":
+        how = src[1]
+        a, b = sh(), sh(1, 3)
+        g = m.fresh()
+        if how in ("slice", "set_data_slice"):
+            tg = [(0,) + rest0, (1,) + rest0]
+            if how == "slice":
+                v[ci((slice(0, 2),) + rest0)] = [a, a]
+            else:
+                v.set_data([a, a], slice(0, 2), *rest0)
+            St.text = f"a = array; v[{ci((slice(0, 2),) + rest0)!r}] = [a, a] ({'__setitem__' if how == 'slice' else 'set_data'})"
+        elif how == "fancy":
+            L = shape[0] - 1
+            tg = [(L,) + rest0, (0,) + rest0]
+            v[ci(([L, 0],) + rest0)] = [a, a]
+            St.text = f"a = array; v[{ci(([L, 0],) + rest0)!r}] = [a, a]"
+        else:
+            tg = None
+            pattern = [0, 1, 0, 0, 1, 0, 0, 1][: len(cells)]
+            idx = tuple(slice(None) for _ in shape)
+            v[idx[0] if nd == 1 else idx] = [a if x == 0 else b for x in pattern]
+            gb = m.fresh()
+            for c, x in zip(cells, pattern):
+                m.put(c, sh() if x == 0 else sh(1, 3), g if x == 0 else gb)
+            St.text = f"a, b = arrays; v[:, ..] = {['ab'[x] for x in pattern]}"
+        if tg is not None:
+            for c in tg:
+                m.put(c, sh(), g)
+    elif k == "equal_content":
+        p, q = cells[src[1]], cells[src[2]]
+        v[ci(p)] = sh()
+        v[ci(q)] = sh()
+        m.put(p, sh())
+        m.put(q, sh())
+        St.text = f"v[{ci(p)!r}] = a; v[{ci(q)!r}] = a.copy() (equal content, two objects)"
+    elif k == "vec_from_dup":
+        n0 = shape[0]
+        lst = [n0 - 1] * (n0 - 1) + [0] if n0 >= 3 else [1, 1]
+        rest = next(r for r in itertools.product(*[range(n) for n in shape[1:]]) if all(m.val[(i,) + r] is not None for i in set(lst)))
+        dst, srcx = ci((slice(0, n0),) + rest), ci((lst,) + rest)
+        v[dst] = v[srcx]
+        new = [m.val[(i,) + rest] for i in lst]
+        for i, a in enumerate(new):
+            m.put((i,) + rest, a)  # the library copies: the destination cells share nothing
+        St.text = f"v[{dst!r}] = v[{srcx!r}]"
+    elif k == "from_data_twice":
+        a, b = sh(), sh(1, 3)
+        if nf == 1:
+            v = V().from_data([a, b, a], num_fields=1)
+        else:
+            v = V().from_data([a, b, a], fields=list(m.fields), units=list(m.units))
+        m = AModel((3,), m.fields, m.units)
+        g = m.fresh()
+        m.put((0,), sh(), g)
+        m.put((1,), sh(1, 3))
+        m.put((2,), sh(), g)
+        St.x, St.m = v, m
+        St.text = "a, b = arrays; v = Vector.from_data([a, b, a])"
+    else:
+        raise ValueError(src)
+    return St
+
+
+def ident_ops(fields, copied):
+    nf = len(fields)
+    ops = [("rt", "f0")] + ([("rt", "flast")] if nf > 1 else [])
+    ops += [("setflat", "f0"), ("setfield", "flast"), ("setflat_consistent", "flast")]
+    ops += [("arith", "add", "f0"), ("arith", "sub", "flast"), ("arith", "mul", "flast"), ("arith", "div", "f0")]
+    if "g" not in fields:
+        ops.append(("add", "g"))
+    if "h" not in fields and nf + 2 <= 6:
+        ops.append(("add", "hi"))
+    if nf >= 2:
+        ops += [("rm", "first"), ("rm", "last")]
+    if not copied:
+        ops.append(("copy",))
+    ops += [("set", "first"), ("set", "last")]
+    return ops
+
+
+def ident_sequences(fields, depth):
+    """Every sequence of 1..depth enabled operations (enabledness only depends on the schema and on 'copied once')."""
+    out = []
+
+    def rec(prefix, fields, copied):
+        if prefix:
+            out.append(tuple(prefix))
+        if len(prefix) == depth:
+            return
+        for op in ident_ops(fields, copied):
+            f2 = fields
+            if op == ("add", "g"):
+                f2 = fields + ("g",)
+            elif op == ("add", "hi"):
+                f2 = fields + ("h", "i")
+            elif op == ("rm", "first"):
+                f2 = fields[1:]
+            elif op == ("rm", "last"):
+                f2 = fields[:-1]
+            rec(prefix + [op], f2, copied or op[0] == "copy")
+
+    rec([], tuple(fields), False)
+    return out
+
+
+def _with_col(a, fi, col):
+    b = a.copy()
+    b[:, fi] = col
+    return b
+
+
+def ident_step(St, op, T, F):
+    """One operation on St.x and on the model. Returns None or (relation, message). Afterwards the model holds the
+    OBSERVED cells (they were judged against the acceptable readings first)."""
+    x, m = St.x, St.m
+    nf = len(m.fields)
+    k = op[0]
+    cands = {c: [m.val[c]] for c in m.cells}
+    written = None
+    try:
+        if k == "rt":
+            fi = 0 if op[1] == "f0" else nf - 1
+            f = m.fields[fi]
+            if fi % 2 == 0:
+                x[f].set_flattened(x[f].flatten())
+            else:
+                x[f] = x[f].flatten()
+        elif k in ("setflat", "setfield", "setflat_consistent"):
+            fi = 0 if op[1] == "f0" else nf - 1
+            f = m.fields[fi]
+            tot = m.total_rows()
+            req, cur = {}, 0
+            if k == "setflat_consistent":
+                rep = {}
+                for c, a in m.populated():
+                    g = m.grp[c]
+                    if g not in rep:
+                        rep[g] = np.array(F[2, cur : cur + a.shape[0]], copy=True)
+                    req[c] = rep[g]
+                    cur += a.shape[0]
+                values = np.concatenate([req[c] for c, _ in m.populated()]) if req else np.empty((0,))
+                x[f].set_flattened(np.array(values, copy=True))
+                written = (f, values)
+                for c, a in m.populated():
+                    cands[c] = [_with_col(a, fi, req[c])]
+            else:
+                row = 0 if k == "setflat" else 1
+                for c, a in m.populated():
+                    req[c] = F[row, cur : cur + a.shape[0]]
+                    cur += a.shape[0]
+                if k == "setflat":
+                    x[f].set_flattened(np.array(F[0, :tot], copy=True))
+                else:
+                    x[f] = [float(z) for z in F[1, :tot]]
+                for c, a in m.populated():
+                    cands[c] = [_with_col(a, fi, req[d]) for d in m.members(c)]
+        elif k == "arith":
+            fi = 0 if op[2] == "f0" else nf - 1
+            f = m.fields[fi]
+            operand = ARITH[op[1]]
+            if op[1] == "add":
+                x[f] += operand
+            elif op[1] == "sub":
+                x[f] -= operand
+            elif op[1] == "mul":
+                x[f] *= operand
+            else:
+                x[f] /= operand
+            fn = {"add": lambda z: z + operand, "sub": lambda z: z - operand, "mul": lambda z: z * operand, "div": lambda z: z / operand}[op[1]]
+            for c, a in m.populated():
+                col, alts = a[:, fi], []
+                for _ in m.members(c):  # an array that sits in k cells: the operation applied 1..k times
+                    col = fn(col)
+                    alts.append(_with_col(a, fi, col))
+                cands[c] = alts
+        elif k == "add":
+            names = ["g"] if op[1] == "g" else ["h", "i"]
+            x.add_fields(names[0] if len(names) == 1 else list(names))
+            m.fields += names
+            m.units += ["none"] * len(names)
+            for c, a in m.populated():
+                cands[c] = [np.concatenate([a, np.zeros((a.shape[0], len(names)))], axis=1)]
+        elif k == "rm":
+            i = 0 if op[1] == "first" else nf - 1
+            quiet_remove(x, m.fields[i] if i == 0 else [m.fields[i]])
+            keep = [j for j in range(nf) if j != i]
+            m.fields = [m.fields[j] for j in keep]
+            m.units = [m.units[j] for j in keep]
+            for c, a in m.populated():
+                cands[c] = [np.stack([a[:, j] for j in keep], axis=1)]
+        elif k == "copy":
+            c2 = x.copy()
+            St.orig, St.om = x, m
+            St.x, St.m = c2, m.clone()
+            St.pmap = {}
+            x, m = St.x, St.m
+        elif k == "set":
+            c = m.cells[0] if op[1] == "first" else m.cells[-1]
+            w = 0 if op[1] == "first" else 1
+            x[cell_idx(c)] = val(T, VID_ISET + w, 2, nf)
+            cands[c] = [val(T, VID_ISET + w, 2, nf)]
+            m.grp[c] = m.fresh()
+            St.pmap.pop(c, None)
+        else:
+            raise ValueError(op)
+    except (Broken, AssertionError):
+        raise
+    except Exception as e:
+        return ("legitimate_operation_raised", f"raised {type(e).__name__}: {str(e)[:160]}")
+    try:
+        if tuple(x.shape) != m.shape or list(x.fields) != m.fields or list(x.units) != m.units:
+            return ("fields_equal_model", f"shape / fields / units are {tuple(x.shape)} {list(x.fields)} {list(x.units)}, model says {m.shape} {m.fields} {m.units}")
+        obs = read_cells(x, m.shape, m.cells)
+    except Exception as e:
+        return ("readable", f"reading the Vector raised {type(e).__name__}: {str(e)[:120]}")
+    for c, o in zip(m.cells, obs):
+        if not any(same_cell(o, a) and (o is None or o.dtype == np.float64) for a in cands[c]):
+            many = len(cands[c]) > 1
+            return (
+                "cells_equal_model",
+                f"cell {c} = {show(o)}, model says {show(cands[c][0])}"
+                + (f" (its array sits in {len(m.members(c))} cells; every reading accepted: {[show(a) for a in cands[c]]})" if many else "")
+                + f"; all cells now {[show(z) for z in obs]}",
+            )
+    for c, o in zip(m.cells, obs):
+        m.val[c] = None if o is None else np.array(o, copy=True)
+    if written is not None:
+        got = x[written[0]].flatten()
+        if not (isinstance(got, np.ndarray) and got.shape == written[1].shape and np.array_equal(got, written[1])):
+            return ("field_flatten_is_row_major_concatenation", f"wrote {written[1].tolist()} with set_flattened, v[{written[0]!r}].flatten() returns {show(got)}")
+    return ident_follow_parent(St)
+
+
+def ident_follow_parent(St):
+    """The Vector x was taken from by an index list: schema unchanged; every cell holds its old value or what a cell of x
+    taken from it holds now (a slice may share its arrays with its source: by design, not judged). The parent's model
+    then follows the observation. Returns None or (relation, message)."""
+    if St.parent is None:
+        return None
+    m = St.m
+    try:
+        p, pm = St.parent, St.pm
+        if tuple(p.shape) != pm.shape or list(p.fields) != pm.fields or list(p.units) != pm.units:
+            return ("mutation_not_visible_in_other_vector", f"the Vector the slice was taken from now has shape / fields / units {tuple(p.shape)} {list(p.fields)} {list(p.units)}, before {pm.shape} {pm.fields} {pm.units}")
+        pobs = read_cells(p, pm.shape, pm.cells)
+        for c, o in zip(pm.cells, pobs):
+            alts = [pm.val[c]] + [m.val[d] for d, pc in St.pmap.items() if pc == c]
+            if not any(same_cell(o, a) for a in alts):
+                return ("slice_source_holds_old_or_slice_values", f"cell {c} of the Vector the slice was taken from = {show(o)}: neither its old value {show(pm.val[c])} nor what the slice holds for it")
+        for c, o in zip(pm.cells, pobs):
+            pm.val[c] = None if o is None else np.array(o, copy=True)
+    except (Broken, AssertionError):
+        raise
+    except Exception as e:
+        return ("readable", f"the Vector the slice was taken from is unreadable: {type(e).__name__}: {str(e)[:120]}")
+    return None
+
+
+def ident_observe(St):
+    """In the state just reached: flatten / field flatten are the concatenation over ALL cells (a repeated array counts
+    once per cell); the Vector x was taken from holds, cell by cell, its old value or what the cell of x taken from it
+    holds now (sharing between a slice and its source is by design and not judged), with an unchanged schema; the Vector
+    x was copied from is bitwise unchanged and shares no memory with the copy. Returns a list of (relation, message)."""
+    x, m = St.x, St.m
+    out = []
+    pop = [a for _, a in m.populated()]
+    try:
+        exp = np.vstack(pop) if pop else np.empty((0, len(m.fields)))
+        got = x.flatten()
+        if not (isinstance(got, np.ndarray) and got.shape == exp.shape and np.array_equal(got, exp)):
+            out.append(("flatten_is_row_major_concatenation", f"v.flatten() = {show(got)}, the cells say {exp.tolist()}"))
+        for fi, f in enumerate(m.fields):
+            got = x[f].flatten()
+            e = exp[:, fi]
+            if not (isinstance(got, np.ndarray) and got.shape == e.shape and np.array_equal(got, e)):
+                out.append(("field_flatten_is_row_major_concatenation", f"v[{f!r}].flatten() = {show(got)}, the cells say {e.tolist()}"))
+    except Exception as e:
+        out.append(("flatten_is_row_major_concatenation", f"flatten raised {type(e).__name__}: {str(e)[:120]}"))
+    live = [a for a in read_cells(x, m.shape, m.cells) if isinstance(a, np.ndarray)]
+    if St.orig is not None:
+        try:
+            o, om = St.orig, St.om
+            ocells = read_cells(o, om.shape, om.cells)
+            if view_bytes(tuple(o.shape), list(o.fields), list(o.units), ocells, {}) != om.bytes():
+                out.append(("mutation_not_visible_in_other_vector", f"an operation on the copy changed the Vector it was copied from: cells {[show(z) for z in ocells]}, fields {list(o.fields)}; before {[show(om.val[c]) for c in om.cells]}, {om.fields}"))
+            elif any(np.shares_memory(a, b) for a in live for b in ocells if isinstance(b, np.ndarray)):
+                out.append(("mutation_not_visible_in_other_vector", "a cell of the copy shares memory with a cell of the Vector it was copied from"))
+        except Exception as e:
+            out.append(("readable", f"the copied-from Vector is unreadable: {type(e).__name__}: {str(e)[:120]}"))
+    return out
+
+
+def ident_key(St):
+    x, m = St.x, St.m
+    cells = read_cells(x, m.shape, m.cells)
+    first, sig = {}, []
+    for i, a in enumerate(cells):
+        sig.append(first.setdefault(id(a), i) if isinstance(a, np.ndarray) else -1)
+    h = hashlib.blake2b(view_bytes(m.shape, m.fields, m.units, cells, {}), digest_size=8)
+    h.update(repr((sig, St.parent is not None, St.orig is not None)).encode())
+    return int.from_bytes(h.digest(), "little"), len(set(s for s in sig if s >= 0)) < sum(1 for s in sig if s >= 0)
+
+
+def run_ident(ii, src, ops, seed, t, counts, states=None):
+    """One sequence on ONE live object from scratch: the source, then the operations. Every operation is judged (cells);
+    the observers run after the last one. A failure of an EARLIER operation is the business of the shorter sequence that
+    ends there (all prefixes are enumerated): it ends this sequence silently."""
+    T, F = tables(seed)
+    src = tuple(src)
+    case = {"identity": True, "init": ii, "source": list(src), "ops": [list(o) for o in ops]}
+    cls = {"dimension": "identity", "source": src[0], "event": ops[-1][0] if ops else "source", "ndim": len(ID_INITS[ii][0])}
+    V().from_shape((1,), num_fields=1).metadata.clear()
+    try:
+        St = ident_source(ii, src, seed)
+    except (Broken, AssertionError):
+        raise
+    except Exception as e:
+        if not ops:
+            t.fail(dict(cls, relation="legitimate_operation_raised"), case, f"identity init {ID_INITS[ii]!r}, source {src!r} raised {type(e).__name__}: {str(e)[:160]}")
+        return None
+    where = f"identity init {ID_INITS[ii]!r} (shape, fields, rows per cell): {St.text}"
+    problem = None
+    if not ops:
+        # the source state itself: exactly the model
+        obs = read_cells(St.x, St.m.shape, St.m.cells)
+        if tuple(St.x.shape) != St.m.shape or list(St.x.fields) != St.m.fields or list(St.x.units) != St.m.units:
+            problem = ("sliced_vector_keeps_schema", f"shape / fields / units {tuple(St.x.shape)} {list(St.x.fields)} {list(St.x.units)}, model says {St.m.shape} {St.m.fields} {St.m.units}")
+        else:
+            for c, o in zip(St.m.cells, obs):
+                if not same_cell(o, St.m.val[c]):
+                    problem = ("cells_equal_model", f"cell {c} = {show(o)}, model says {show(St.m.val[c])}")
+                    break
+        if problem is None and St.take is not None:
+            # the index object handed over is left as it was, and get_data with the same index returns the same cells
+            entry, lst, args = St.take
+            if list(np.asarray(entry).tolist()) != lst:
+                problem = ("observers_do_not_mutate", f"the index object handed to v[...] was changed to {np.asarray(entry).tolist()}")
+            else:
+                try:
+                    got = St.parent.get_data(*args)
+                    exp = [St.m.val[c] for c in St.m.cells]
+                    ok = (isinstance(got, list) and len(got) == len(exp) and all(same_cell(g, e) for g, e in zip(got, exp))) or (len(exp) == 1 and same_cell(got, exp[0]))
+                    if not ok:
+                        problem = ("get_data_returns_addressed_cells", f"v.get_data(*{args!r}) = {[show(g) for g in got] if isinstance(got, list) else show(got)}, model says {[show(e) for e in exp]}")
+                except Exception as e:
+                    problem = ("get_data_returns_addressed_cells", f"v.get_data(*{args!r}) raised {type(e).__name__}: {str(e)[:120]}")
+    for i, op in enumerate(ops):
+        problem = ident_step(St, tuple(op), T, F)
+        if problem is not None and i + 1 < len(ops):
+            return None
+        where += f"; {tuple(op)!r}"
+    counts["transitions"] += 1
+    counts["ev_identity_" + (ops[-1][0] if ops else "source")] += 1
+    t.n += 1
+    probs = [problem] if problem is not None else ident_observe(St)
+    counts["obs_identity"] += 1
+    for rel, msg in probs:
+        t.fail(dict(cls, relation=rel), case, f"{where}: {msg}")
+    if probs:
+        return None
+    key, shared = ident_key(St)
+    if shared:
+        counts["identity_states_with_one_array_in_several_cells"] += 1
+    if states is not None:
+        states.add(key)
+    return St
+
+
+def ident_shard(item, seed=0, tier="quick"):
+    ii, si = item
+    src = ident_sources(ii, tier)[si]
+    t = Tally()
+    counts = t.extra
+    states = set()
+    fields = ["field_0"] if ID_INITS[ii][1] == 1 else FIELDS[: ID_INITS[ii][1]]
+    if run_ident(ii, src, [], seed, t, counts, states) is not None:
+        for ops in ident_sequences(fields, ID_DEPTH[tier]):
+            run_ident(ii, src, ops, seed, t, counts, states)
+            counts["identity_sequences"] += 1
+    if si == 0:
+        t.sample({"identity_init": list(map(repr, ID_INITS[ii])), "source": list(src), "ops": [list(o) for o in ident_sequences(fields, 2)[-1]]}, cap=1)
+    t.outcomes.add(packed(states))
+    counts["seam_data_fallback"] += SEAM["data_fallback"]
+    SEAM["data_fallback"] = 0
+    return t
+
+
+# ----------------------------------------------------------------------------- content of field names
+# Field names are arbitrary distinct strings: names that differ only in case, in surrounding blanks, in Unicode
+# normalisation form, numeric-looking names with the same value, names that are prefixes of one another, names with
+# blanks / dots / non-ASCII letters, names that spell an attribute of the class. v[name] addresses the column at the
+# position of exactly that string in v.fields; a string that is not in v.fields is not a field, however similar.
+NAME_FAMILIES = [
+    ("case", ["k", "K"]),
+    ("case3", ["Qx", "qx", "QX"]),
+    ("casefold", ["stra\u00dfe", "strasse", "STRASSE"]),
+    ("blanks", ["x", " x", "x "]),
+    ("prefix", ["x", "xx", "xxx"]),
+    ("numeric", ["1", "01", "1.0"]),
+    ("unicode_nfc_nfd", ["\u00e9", "e\u0301", "e"]),
+    ("unicode_compat", ["\ufb01", "fi"]),
+    ("punctuation", ["a.b", "a", "a b"]),
+    ("non_ascii_blank", ["k \u00e9", "k e", "k"]),
+    ("pattern", ["x.", "xy", "x*"]),
+    ("default_like", ["field_0", "field_00", "Field_0"]),
+    ("attribute_like", ["shape", "fields", "data"]),
+]
+NAME_BUILDS = ("from_shape", "from_data")
+
+
+def name_lists():
+    out = []
+    for fam, names in NAME_FAMILIES:
+        for k in range(2, len(names) + 1):
+            out += [(fam, list(p)) for p in itertools.permutations(names, k)]
+        out += [(fam, [names[0], "y", names[1]]), (fam, [names[1], "y", names[0]])]  # a neutral name in between
+    return out
+
+
+def name_variants(name):
+    """Strings a lenient lookup might identify with `name`."""
+    import unicodedata
+
+    c = {name.upper(), name.lower(), name.casefold(), name.swapcase(), name.title(), name.strip(), " " + name, name + " ", name + name[-1:], name[:-1], name.replace(" ", "_"), name.replace(".", "_"), name.replace(" ", "")}
+    c |= {unicodedata.normalize(form, name) for form in ("NFC", "NFD", "NFKC", "NFKD")}
+    try:
+        z = float(name)
+        c |= {str(z), "0" + name, str(int(z)) if z == int(z) else name, name + ".0"}
+    except ValueError:
+        pass
+    return c
+
+
+def absent_variants(fields, family):
+    c = set(family)
+    for f in fields:
+        c |= name_variants(f)
+    return sorted(c - set(fields))
+
+
+def names_build(names, how, seed):
+    n = len(names)
+    units = [f"u{i}" for i in range(n)]
+    if how == "from_shape":
+        v = V().from_shape((2,), fields=list(names), units=list(units))
+        for cell, rows in ((0, 3), (1, 2)):
+            v[cell] = wide_values(seed, cell, rows, n)
+    else:
+        v = V().from_data([wide_values(seed, 0, 3, n), wide_values(seed, 1, 2, n)], fields=list(names), units=list(units))
+    m = Model((2,), names, units)
+    for cell, rows in ((0, 3), (1, 2)):
+        m.put((cell,), wide_values(seed, cell, rows, n))
+    return v, m
+
+
+def names_ops(fields, family, full=True):
+    """Operations that address a field by name, for every name of the current field list."""
+    ops = []
+    for i in range(len(fields)):
+        ops += [("setf", i), ("arith", "mul", i), ("rm", i, "str")]
+        if full:
+            ops += [("setflat", i), ("arith", "add", i), ("arith", "sub", i), ("arith", "div", i), ("rm", i, "list"), ("add_existing", i), ("copy_rm", i)]
+            if len(fields) >= 2:
+                ops.append(("keep", i))
+    absent = absent_variants(fields, family)
+    ops += [("add", a) for a in absent if a.strip() and (full or a in family)]  # empty / blank-only names: lookups only
+    ops.append(("absent",))
+    return ops
+
+
+def names_check(v, m, who="main"):
+    """Exact comparison with the model, every field BY NAME (flatten and the field view indexed with a cell / a list)."""
+    p = wide_check(v, m, who)
+    if p is not None:
+        return p
+    for fi, f in enumerate(m.fields):
+        got = v[f][0]
+        exp = m.get((0,))[:, fi]
+        if not same_cell(got, exp):
+            return ("field_view_index_returns_addressed_column", f"v[{f!r}][0] = {show(got)}, model says {exp.tolist()}")
+        got = v[f][[1, 0]].flatten()
+        exp = np.concatenate([m.get((1,))[:, fi], m.get((0,))[:, fi]])
+        if not same_cell(got, exp):
+            return ("field_view_index_returns_addressed_column", f"v[{f!r}][[1, 0]].flatten() = {show(got)}, model says {exp.tolist()}")
+    return None
+
+
+def run_names(li, how, seq, seed, t, counts):
+    fam, names = name_lists()[li]
+    family = dict(NAME_FAMILIES)[fam]
+    _, F = tables(seed)
+    case = {"names": li, "build": how, "ops": [list(o) for o in seq]}
+    cls = {"dimension": "field_names", "family": fam, "build": how, "depth": len(seq)}
+    where = f"fields {names!r} ({how})"
+
+    def fail(rel, msg, extra=None):
+        t.fail(dict(cls, relation=rel, event=(seq[-1][0] if seq else "build"), **(extra or {})), case, f"{where}: {msg}")
+
+    try:
+        v, m = names_build(names, how, seed)
+        problem = names_check(v, m) if not seq else None
+    except (Broken, AssertionError):
+        raise
+    except Exception as e:
+        problem = ("legitimate_operation_raised", f"building the Vector raised {type(e).__name__}: {str(e)[:120]}")
+        if seq:
+            return None
+    if problem:
+        fail(*problem)
+        return None
+    for n, op in enumerate(seq):
+        op = tuple(op)
+        k = op[0]
+        last = n + 1 == len(seq)
+        other = None
+        problem = None
+        try:
+            if k in ("setf", "setflat"):
+                f = m.fields[op[1]]
+                vals = np.array(F[0 if k == "setf" else 1, : m.total_rows()], copy=True)
+                if k == "setf":
+                    v[f] = vals
+                else:
+                    v[f].set_flattened(vals)
+                m.set_flat(op[1], F[0 if k == "setf" else 1])
+                where += f"; v[{f!r}] <- values ({k})"
+            elif k == "arith":
+                f = m.fields[op[2]]
+                operand = ARITH[op[1]]
+                if op[1] == "add":
+                    v[f] += operand
+                elif op[1] == "sub":
+                    v[f] -= operand
+                elif op[1] == "mul":
+                    v[f] *= operand
+                else:
+                    v[f] /= operand
+                m.arith(op[2], op[1], operand)
+                where += f"; v[{f!r}] {op[1]}= {operand}"
+            elif k == "rm":
+                f = m.fields[op[1]]
+                quiet_remove(v, f if op[2] == "str" else [f])
+                m.remove([f])
+                where += f"; remove_fields({f!r})"
+            elif k == "keep":
+                drop = [f for j, f in enumerate(m.fields) if j != op[1]]
+                quiet_remove(v, tuple(reversed(drop)))
+                m.remove(drop)
+                where += f"; remove_fields({tuple(reversed(drop))!r})"
+            elif k == "add":
+                v.add_fields(op[1])
+                m.add([op[1]])
+                where += f"; add_fields({op[1]!r})"
+            elif k == "copy_rm":
+                f = m.fields[op[1]]
+                c, mc = v.copy(), m.clone()
+                quiet_remove(c, [f])
+                mc.remove([f])
+                other = (c, mc)
+                where += f"; c = v.copy(); c.remove_fields([{f!r}])"
+            elif k == "add_existing":
+                f = m.fields[op[1]]
+                where += f"; add_fields([{f!r}]) (exists)"
+                try:
+                    v.add_fields([f])
+                    problem = ("refused_operation_is_refused", f"adding the existing name {f!r} was ACCEPTED: fields {list(v.fields)}")
+                except Exception:
+                    pass
+            elif k == "absent":
+                # a string that is not in v.fields is not a field: get / set / arithmetic raise, remove_fields changes nothing
+                where += "; lookups of absent look-alike names"
+                for a in absent_variants(m.fields, family):
+                    for kind, call in (("get", lambda: v[a]), ("set", lambda: v.__setitem__(a, np.array(F[2, : m.total_rows()], copy=True))), ("arith", lambda: v[a].__imul__(3)), ("remove", lambda: quiet_remove(v, a))):
+                        raised = False
+                        try:
+                            call()
+                        except (Broken, AssertionError):
+                            raise
+                        except Exception:
+                            raised = True
+                        counts["names_absent_lookups"] += 1
+                        if kind != "remove" and not raised and problem is None:
+                            problem = ("refused_operation_is_refused", f"{kind} with the name {a!r}, which is not in fields {m.fields!r}, was ACCEPTED (on /repo HEAD it raises KeyError)")
+                        if problem is None and view_bytes(*read_one(v, m)) != model_bytes(m):
+                            d = diff_one("main", v, m) or ("state_equals_model", "canonical bytes differ from the model")
+                            problem = ("refused_operation_stays_in_footprint" if kind != "remove" else d[0], f"{kind} with the absent name {a!r} changed the Vector: {d[1]}")
+            else:
+                raise ValueError(op)
+            if problem is None:
+                problem = names_check(v, m)
+            if problem is None and other is not None:
+                problem = names_check(other[0], other[1], "copy")
+        except (Broken, AssertionError):
+            raise
+        except Exception as e:
+            problem = ("legitimate_operation_raised", f"raised {type(e).__name__}: {str(e)[:120]}")
+        if problem is not None and not last:
+            return None  # reported by the shorter sequence that ends here
+        if last:
+            counts["transitions"] += 1
+            counts["ev_names_" + k] += 1
+            t.n += 1
+        if problem:
+            fail(problem[0], f"{problem[1][:700]} (fields now {list(m.fields)!r})")
+            return None
+    shape, fields, units, cells, meta = read_one(v, m)
+    return int.from_bytes(hashlib.blake2b(view_bytes(shape, fields, units, cells, meta), digest_size=8).digest(), "little")
+
+
+def names_sequences(names, family, how, tier):
+    """Depth 1: every operation for every name. Depth 2: after every structural first operation (remove one name, keep
+    one name, add a family member) the reduced set (thorough: the full set) for every name that is left."""
+    full = how == "from_shape" or tier == "thorough"
+    seqs = [[]] + [[op] for op in names_ops(names, family, full=full)]
+    if full:
+        for op in names_ops(names, family):
+            if op[0] == "rm" and op[2] == "str":
+                left = [f for j, f in enumerate(names) if j != op[1]]
+            elif op[0] == "keep":
+                left = [names[op[1]]]
+            elif op[0] == "add" and op[1] in family:
+                left = list(names) + [op[1]]
+            else:
+                continue
+            for op2 in names_ops(left, family, full=tier == "thorough"):
+                seqs.append([op, op2])
+    return seqs
+
+
+def names_shard(item, seed=0, tier="quick"):
+    lo, hi = item
+    t = Tally()
+    counts = t.extra
+    states = set()
+    lists = name_lists()
+    for li in range(lo, hi):
+        fam, names = lists[li]
+        family = dict(NAME_FAMILIES)[fam]
+        for how in NAME_BUILDS:
+            for seq in names_sequences(names, family, how, tier):
+                k = run_names(li, how, seq, seed, t, counts)
+                counts["names_sequences"] += 1
+                if k is not None:
+                    states.add(k)
+    if lo == 0:
+        t.sample({"field_names": lists[0][1], "build": "from_shape", "ops": [list(o) for o in names_sequences(lists[0][1], dict(NAME_FAMILIES)[lists[0][0]], "from_shape", tier)[-1]]}, cap=1)
+    t.outcomes.add(packed(states))
+    counts["seam_data_fallback"] += SEAM["data_fallback"]
+    SEAM["data_fallback"] = 0
+    return t
+
+
 # ----------------------------------------------------------------------------- driver
 def run(ctx):
     seed = ctx.seed
@@ -2323,6 +3179,8 @@ def run(ctx):
         "a negative integer index in v[-1, ..] = array is accepted by the library (Python list semantics) and modelled as such; set_data / get_data refuse it",
         "outside the alphabet: singleton lists in assignments, removing every field; integer / bool cells only in the global-mode dimension",
         "global modes: warnings.simplefilter('error') and np.errstate(all='raise') are applied to the library call only; the reference model is shielded from them",
+        "identity dimension: when ONE array object sits in k cells of a Vector the property does not say whether an in-place field operation acts once or k times on it, nor which of k different requested values it keeps: every reading is accepted and the model follows the observation; cells whose array sits in one cell are judged exactly",
+        "field names are arbitrary distinct non-blank strings; a string that is not in v.fields is not a field, however similar (v[name] raises on /repo HEAD)",
         "on /repo HEAD no event of the alphabet emits a warning or raises a floating-point flag for float, int64, uint8 or bool cells (measured; the evidence counts mode_*_turned_into_exception_* would show otherwise)",
     )
 
@@ -2439,6 +3297,29 @@ def run(ctx):
     all_states += [np.frombuffer(b, dtype=np.uint64) for b in mm.outcomes if isinstance(b, bytes)]
     transitions += int(mm.extra["transitions"])
     bounds["global_modes"] = {"modes": list(MODES), "initial_states": [[x[0], list(x[1]), x[2]] for x in MODE_INITS], "depth_of_states": 1}
+    # identity dimension: one array object in several cells (index lists naming a position twice, one object assigned twice)
+    i_items = [(ii, si) for ii in range(len(ID_INITS)) for si in range(len(ident_sources(ii, ctx.tier)))]
+    i_items.sort(key=lambda it: (-len(ID_INITS[it[0]][0]) * ID_INITS[it[0]][1], it))
+    ctx.say(f"identity: {len(i_items)} (initial state, source) pairs, every sequence of <= {ID_DEPTH[ctx.tier]} operations after each")
+    mi_ = ctx.pmap(ident_shard, i_items, chunk=4, label="identity", seed=seed, tier=ctx.tier)
+    all_states += [np.frombuffer(b, dtype=np.uint64) for b in mi_.outcomes if isinstance(b, bytes)]
+    transitions += int(mi_.extra["transitions"])
+    bounds["identity"] = {
+        "initial_states": [[list(s), nf, [r for r in rows]] for s, nf, rows in ID_INITS],
+        "sources": sorted({s[0] for ii in range(len(ID_INITS)) for s in ident_sources(ii, ctx.tier)}),
+        "index_lists_axis_of_3": take_lists(3, ctx.tier),
+        "source_states": len(i_items),
+        "operations_after_source": ID_DEPTH[ctx.tier],
+        "sequences": int(mi_.extra["identity_sequences"]),
+    }
+    # content of field names: look-alike names in every operation that addresses a field by name
+    n_lists = len(name_lists())
+    n_items = [(lo, min(n_lists, lo + 4)) for lo in range(0, n_lists, 4)]
+    ctx.say(f"field names: {n_lists} field lists from {len(NAME_FAMILIES)} families of look-alike names, 2 constructions, operation sequences of depth 1-2")
+    mn_ = ctx.pmap(names_shard, n_items, chunk=1, label="names", seed=seed, tier=ctx.tier)
+    all_states += [np.frombuffer(b, dtype=np.uint64) for b in mn_.outcomes if isinstance(b, bytes)]
+    transitions += int(mn_.extra["transitions"])
+    bounds["field_names"] = {"families": [[f, list(n)] for f, n in NAME_FAMILIES], "field_lists": n_lists, "constructions": list(NAME_BUILDS), "sequences": int(mn_.extra["names_sequences"]), "absent_lookups": int(mn_.extra["names_absent_lookups"])}
     ex = ctx.tally.extra
     maxd = max([int(k.rsplit("_", 1)[1]) for k, v in ex.items() if k.startswith("reached_depth_") and v > 0] or [0])
     nstates = int(np.unique(np.concatenate(all_states)).size) if all_states else 0
@@ -2476,6 +3357,11 @@ def run(ctx):
     never = [k for k in kinds if ex.get("ev_" + k, 0) == 0]
     if never:
         raise Broken(f"events never enabled anywhere: {never}")
+    if ex.get("identity_states_with_one_array_in_several_cells", 0) < 100:
+        raise Broken("identity dimension: hardly any state in which one array object sits in several cells was reached")
+    for k in ("ev_identity_rt", "ev_identity_setflat", "ev_identity_arith", "ev_identity_add", "ev_identity_rm", "ev_identity_copy", "ev_names_setf", "ev_names_arith", "ev_names_rm", "ev_names_add", "names_absent_lookups"):
+        if ex.get(k, 0) == 0:
+            raise Broken(f"{k} never ran")
     for k in ("ev_cross_assign_view", "ev_cross_assign_flatten", "ev_cross_set_flattened_view", "ev_cross_assign_cell", "obs_slice", "obs_get_data", "obs_flatten", "obs_field_flatten", "obs_roundtrip", "ev_refused", "ev_follow_after_refused", "kept_flatten_checks"):
         if ex.get(k, 0) == 0:
             raise Broken(f"observer {k} never ran")
@@ -2486,6 +3372,22 @@ def replay(ctx, case):
     if "width" in case:
         print(f"  {case['width']} fields, ops {case['ops']}")
         run_wide(case["width"], [tuple(op) for op in case["ops"]], ctx.seed, t, t.extra)
+        return
+    if case.get("identity"):
+        src, ops = tuple(case["source"]), [tuple(o) for o in case["ops"]]
+        print(f"  identity init {ID_INITS[case['init']]!r} (shape, fields, rows per cell), source {src!r}, operations {ops!r}")
+        before = t.nfails
+        St = run_ident(case["init"], src, ops, ctx.seed, t, t.extra)
+        print("  reproduces" if t.nfails > before else "  does not reproduce")
+        if St is not None:
+            print(f"  {St.text}; state after the operations:")
+            for c_, a in zip(St.m.cells, read_cells(St.x, St.m.shape, St.m.cells)):
+                print(f"    cell {c_}: observed {show(a)}")
+        return
+    if "names" in case:
+        fam, names = name_lists()[case["names"]]
+        print(f"  fields {names!r} (family {fam}), built with {case['build']}, ops {case['ops']}")
+        run_names(case["names"], case["build"], [tuple(o) for o in case["ops"]], ctx.seed, t, t.extra)
         return
     if "mode" in case:
         spec = tuple(case["init"])
